@@ -1,5 +1,8 @@
 import Proofs.KeysRoundTrip
 import Proofs.KeysDerCanon
+import Proofs.KeysB64
+import Proofs.KeysCanon
+import Proofs.KeysInstPub
 /-!
 # C09 — keys round-trip through every serialisation and emit exact standard DER
 
@@ -167,6 +170,63 @@ theorem loads_independent_encoding (E : Ext) (c : Curve) (hc : c ∈ curveTable)
    (sk_fromDer_spec E c hc (find_curve_table _ hc) skStr pt hs hpt).2,
    (padLeft_spec c skStr).1,
    vk_fromDer_spec E c hc (find_curve_table _ hc) pt hpt⟩
+
+/-- the other direction of the string round trip: an accepted byte string is exactly what `to_string` writes for the
+accepted key in one of the four forms (one accepted encoding per key and form) -/
+theorem vk_to_string_from_string (E : Ext) (c : Curve) (hc : c ∈ curveTable) (hp : c.p.Prime)
+    (hsqrt : SqrtSpec E.sqrtModP c.p) (s : Bytes) (k : VK) (h : VK.fromString E c s true = .ok k) :
+    ∃ enc, k.toString enc = .ok s := by
+  obtain ⟨enc, he⟩ := fromString_ok_bytes E c hp (table_sanity _ hc).1 (table_sanity _ hc).2.1 hsqrt s k h
+  obtain ⟨hcv, _, hv⟩ := (fromString_ok_iff E c hp (table_sanity _ hc).1 (table_sanity _ hc).2.1 hsqrt s k).mp h
+  refine ⟨enc, ?_⟩
+  rw [he]
+  exact toString_ok k (by rw [hcv]; exact hv.1) (by rw [hcv]; exact hv.2.1) enc
+
+/-- the driver's concrete model of CPython's lenient `base64.b64decode` inverts `b64encode` — so for that decoder the
+PEM round trips need no base64 hypothesis -/
+theorem b64decode_model_inverts_b64encode (d : Bytes) : b64decodeCPython (b64encode d) = some d :=
+  b64decodeCPython_encode d
+
+/-! ## everything together on the composed model
+
+`KeysWire.modelExt` = the executable models of the other layers (square root: `NT.squareRootModPrime`; `n * point ==
+INFINITY` and `generator * d`: `Curve.pjMul` on the generated kernels; base64: the model of CPython's decoder).  Their
+contracts are theorems (C15 `sqrt_spec`; C07 `mul` via `GroupInterface`, base-point order checked by the kernel in
+`Proofs/NamedCurves`; `b64decode_model_inverts_b64encode`), so the only hypotheses left are the SEC 2 / FIPS / RFC 5639
+facts **p prime, n prime**. -/
+
+/-- **every curve of the table × every d ∈ [1, n−1] × every point encoding × both private formats × raw string, DER,
+PEM**: the key pair built from `d` exists, its public point is valid, and every serialisation of both keys loads back
+to the same key -/
+theorem all_round_trips_model (c : Curve) (hc : c ∈ curveTable) (hp : c.p.Prime) (hn : c.n.Prime) (d : Nat)
+    (h1 : 1 ≤ d) (h2 : d < c.n) :
+    ∃ k : SK, SK.fromSecretExponent KeysWire.modelExt c d = .ok k ∧ k.curve = c ∧ k.d = d ∧ k.vk.curve = c ∧
+      ValidPoint KeysWire.modelExt c k.vk.x k.vk.y ∧
+      (∃ bs, k.toString = .ok bs ∧ SK.fromString KeysWire.modelExt c bs = .ok k) ∧
+      (∀ enc, ∃ bs, k.vk.toString enc = .ok bs ∧ VK.fromString KeysWire.modelExt c bs true = .ok k.vk) ∧
+      (∀ enc, enc ≠ .raw →
+        (∃ bs, k.vk.toDer enc = .ok bs ∧ VK.fromDer KeysWire.modelExt bs = .ok k.vk ∧
+          ∃ pem, k.vk.toPem enc = .ok pem ∧ VK.fromPem KeysWire.modelExt pem = .ok k.vk) ∧
+        (∀ fmt, ∃ bs, k.toDer enc fmt = .ok bs ∧ SK.fromDer KeysWire.modelExt bs = .ok k ∧
+          ∃ pem, k.toPem enc fmt = .ok pem ∧ SK.fromPem KeysWire.modelExt pem = .ok k)) := by
+  haveI := Fact.mk hp
+  obtain ⟨x, y, hpub, hv⟩ := pubKey_model c hc hn d h1 h2
+  have hodd := (table_sanity _ hc).1
+  have hsq : SqrtSpec KeysWire.modelExt.sqrtModP c.p := sqrtSpec_modelExt c.p hp (by omega)
+  have hb64 : ∀ bs, KeysWire.modelExt.b64decode (b64encode bs) = some bs := b64decodeCPython_encode
+  let k : SK := ⟨c, d, ⟨c, x, y⟩⟩
+  have hw : SK.WF KeysWire.modelExt k := ⟨h1, h2, rfl, hv.1, hv.2.1, hpub⟩
+  have hv' : ValidPoint KeysWire.modelExt k.vk.curve k.vk.x k.vk.y := hv
+  refine ⟨k, fromSecretExponent_ok _ k hw, rfl, rfl, rfl, hv, sk_from_string_to_string _ k hw, ?_, ?_⟩
+  · intro enc
+    exact vk_from_string_to_string _ k.vk hc hp hsq hv' enc
+  · intro enc henc
+    constructor
+    · obtain ⟨bs, e1, e2⟩ := vk_from_der_to_der _ k.vk hc hp hsq hv' enc henc
+      exact ⟨bs, e1, e2, vk_fromPem_toPem _ k.vk enc bs e1 e2 (hb64 bs)⟩
+    · intro fmt
+      obtain ⟨bs, e1, e2⟩ := sk_from_der_to_der _ k hc hw enc henc fmt
+      exact ⟨bs, e1, e2, sk_fromPem_toPem _ k enc fmt bs e1 e2 (hb64 bs)⟩
 
 /-- the loaded scalar: `from_string` of `baselen` bytes is `from_secret_exponent` of their big-endian value -/
 theorem sk_from_string_value (E : Ext) (c : Curve) (s : Bytes) (h : s.length = c.baselen) :
